@@ -86,6 +86,65 @@ def parseBlock : Expr → Option (List Rule)
   | .block _ e => parseRules e
   | _ => Option.none
 
+/-! ## `pass` / `break` anywhere in the action list
+
+The grammar (`expractions`) accepts `pass` and `break` at any position of an action list, any number
+of times (`expr_validate` only rejects `discard` / `reject` next to another action).  mdsort.conf(5)
+lists them among the actions of a rule - "Next comes one or many actions" - and attaches their
+meaning to the rule, not to a position in the list: `pass` = "Continue evaluation of the current
+block of rules up to the next matching rule", `break` = "Abort evaluation of the current block of
+rules".  Documented reading of a rule `match c x1 ... xn`:
+
+* the actions of the rule are ALL the `xi` that are not `pass` / `break`, in the order listed -
+  those standing before a `pass` / `break` and those standing after it;
+* the rule has the control `pass` iff some `xi` is `pass`, `break` iff some `xi` is `break`; repeating
+  a control action changes nothing;
+* a list that contains both `pass` and `break` asks to continue and to abort the same block: the
+  manual gives it no meaning, it is outside the specification (`ctlOfList = none`, the parse
+  functions return `none`).
+
+`splitActsW` / `parseRuleW` / `parseBlockW` are `splitActs` / `parseRule` / `parseBlock` with
+this reading; on a list whose only control action is its last element they agree with them. -/
+
+def isPassExpr (x : Expr) : Bool := isCtlExpr x == some Ctl.pass
+def isBrkExpr (x : Expr) : Bool := isCtlExpr x == some Ctl.brk
+
+/-- The control of a rule whose action list is `xs`; `none`: both `pass` and `break` occur. -/
+def ctlOfList (xs : List Expr) : Option Ctl :=
+  if xs.any isPassExpr && xs.any isBrkExpr then Option.none
+  else some (if xs.any isPassExpr then Ctl.pass else if xs.any isBrkExpr then Ctl.brk else Ctl.none)
+
+/-- The plain actions of the list in the order listed, and the control of the rule. -/
+def splitActsW (xs : List Expr) : Option (List Expr × Ctl) :=
+  match ctlOfList xs with
+  | Option.none => Option.none
+  | some ctl =>
+    let as := xs.filter fun x => (isCtlExpr x).isNone
+    if !xs.isEmpty && as.all isActionExpr then some (as, ctl) else Option.none
+
+mutual
+/-- One `match cond rhs`, control actions anywhere. -/
+def parseRuleW : Expr → Option Rule
+  | .mtch lno c rhs =>
+    if !isCond c then Option.none
+    else
+      match rhs with
+      | .block _ e => (parseRulesW e).map fun rs => Rule.blk lno c rs
+      | _ => (splitActsW (andChain rhs)).map fun (as, ctl) => Rule.acts lno c as ctl
+  | _ => Option.none
+
+def parseRulesW : Expr → Option (List Rule)
+  | .or _ l r =>
+    match parseRulesW l, parseRuleW r with
+    | some ls, some x => some (ls ++ [x])
+    | _, _ => Option.none
+  | e => (parseRuleW e).map fun x => [x]
+end
+
+def parseBlockW : Expr → Option (List Rule)
+  | .block _ e => parseRulesW e
+  | _ => Option.none
+
 /-- Three-valued condition with left-to-right short-circuit. -/
 def condVal (v : Expr → Tri) : Expr → Tri
   | .and _ l r => match condVal v l with
